@@ -216,7 +216,8 @@ class MCSimulationFixedTimes(MCSimulation, SimulationFixedTimes):
         for k, sliceStates in enumerate(values):
             if sliceStates.shape[0]:
                 definitive_values[k] = sliceStates[-1]
-        return definitive_values
+        # running sum over the payoff dates: the path at a date carries all the jumps up to that date
+        return np.cumsum(definitive_values)
 
     def simulate_jumps(self):
         mc = self.simulate_markov_chain()
